@@ -37,7 +37,7 @@ fn depth(tier: Tier) -> usize {
 }
 
 fn info(tier: Tier) -> CheckInfo {
-    CheckInfo {
+    let mut ci = CheckInfo {
         id: "C20",
         level: "model_checking",
         rule: format!(
@@ -47,7 +47,9 @@ fn info(tier: Tier) -> CheckInfo {
             depth(tier)
         ),
         assumptions: vec!["floating-point sums are compared with a relative tolerance of 1e-9".into()],
-    }
+    };
+    ci.rule.push_str(" Added: 24 announcers on one info hash in the store search; histories with a target whose lookups nobody answers, looked up twice with one other step before, between or after.");
+    ci
 }
 
 // ------------------------------------------------------------------------------------------ (a)
